@@ -208,8 +208,11 @@ def gating(out, mc):
         if "get_name" not in ck:
             fails2.append("Diagnostic.code is not derived from code.get_name(): %s" % ck)
         rng = ex.deep_key(p.state, fld.get("range"))
-        if "unwrap_or" not in rng or "translate_range" not in rng:
-            fails2.append("Diagnostic.range is not translate_range(range).unwrap_or(0:0): %s" % rng[:120])
+        chain = [c.split("::")[-1] for c in re.findall(r"\(call,([^,]*),", rng)]
+        if chain[:2] != ["unwrap_or", "translate_range"] or any(c not in ("unwrap_or", "translate_range", "get_vfs", "get_db") for c in chain):
+            fails2.append("Diagnostic.range is not exactly translate_range(range).unwrap_or(0:0) (call chain: %s)" % chain[:4])
+        if "opq:(arg,3)" not in rng:
+            fails2.append("Diagnostic.range is not derived from the range argument")
     ob1.witness = ob2.witness = pushes_seen > 0
     for ob, fails in ((ob1, fails1), (ob2, fails2)):
         if pushes_seen == 0:
